@@ -428,6 +428,9 @@ class CSSSerializer:
         """serializes a complete CSSStyleSheet"""
         useduris = stylesheet._getUsedURIs()
         out = []
+        # (pref indentSpecificities: nothing of what was serialised before)
+        self._selectors = []
+        self._selectorlevel = 0
         for rule in stylesheet.cssRules:
             if (
                 self.prefs.keepUsedNamespaceRulesOnly
@@ -856,7 +859,7 @@ class CSSSerializer:
                     (self._level + int(self.prefs.indentClosingBrace))
                     * self.prefs.indent,
                 ),
-                self._selectorlevel,
+                self._selectorlevel if self.prefs.indentSpecificities else 0,
             )
 
     def do_css_SelectorList(self, selectorlist):
